@@ -12,4 +12,5 @@ Extraction "../ocaml/c16/model.ml"
   gen_fetch_site memo_get reader_query reader_session
   gen_stream_read gen_fetch_workers http_error stream_read stream_fails
   pinit pstep prun pabs pmeasure
-  xinit xstep xrun xmeasure.
+  xinit xstep xrun xmeasure
+  gen_retry gen_transport_kept send_retry send_cfg via_retry retryable slot_send slot_history slots_init.
